@@ -38,3 +38,14 @@ func (sc *SecretConnection) VerifRecvBufferLen() int {
 	defer sc.recvMtx.Unlock()
 	return len(sc.recvBuffer)
 }
+
+// VerifSealRawFrame seals an arbitrary plaintext frame under the send key and counter the way
+// Write does (Seal, then incrNonce) and returns it without writing it: what a peer that completed
+// the handshake but does not follow the framing rules can put on the wire.
+func (sc *SecretConnection) VerifSealRawFrame(frame []byte) []byte {
+	sc.sendMtx.Lock()
+	defer sc.sendMtx.Unlock()
+	sealed := sc.sendAead.Seal(nil, sc.sendNonce[:], frame, nil)
+	incrNonce(sc.sendNonce)
+	return sealed
+}
